@@ -36,11 +36,12 @@ def _bits(ty):
 
 
 class Ptr:
-    __slots__ = ('root', 'path')
+    __slots__ = ('root', 'path', 'es')
 
-    def __init__(self, root, path=()):
+    def __init__(self, root, path=(), es=None):
         self.root = root
         self.path = tuple(path)
+        self.es = es        # size in bytes of the element the last (integer) path step counts, if known
 
     def key(self):
         return (self.root, self.path)
@@ -139,11 +140,13 @@ class Frag:
         first, rest = idx[0], idx[1:]
         if isinstance(first, Ptr):
             raise Unknown('pointer used as index')
+        es = base.es
         if first != 0:
             if path and isinstance(path[-1], int):
                 path[-1] = path[-1] + first
             else:
                 path.append(first)
+                es = self._sizeof(sty)
         ty = sty
         for i in rest:
             if isinstance(i, Ptr):
@@ -158,9 +161,22 @@ class Frag:
             elif ty[0] in ('array', 'vec'):
                 path.append(i)
                 ty = ty[2]
+                es = self._sizeof(ty)
             else:
                 raise Unknown('gep into non-aggregate %r' % (ty,))
-        return Ptr(base.root, path)
+        return Ptr(base.root, path, es if path and isinstance(path[-1], int) else None)
+
+    def _sizeof(self, ty):
+        if ty is None:
+            return None
+        if ty[0] == 'int':
+            return max(1, ty[1] // 8)
+        if ty[0] == 'ptr':
+            return 8
+        if ty[0] == 'array':
+            e = self._sizeof(ty[2])
+            return None if e is None else e * ty[1]
+        return None
 
     def load(self, p, ins):
         if not isinstance(p, Ptr):
@@ -310,6 +326,11 @@ class Frag:
         if op in ('add', 'sub', 'mul', 'and', 'or', 'xor', 'shl', 'lshr', 'ashr', 'udiv', 'sdiv', 'urem', 'srem'):
             w = _bits(ins.ty)
             a, b = self.val(ins.ops[0]), self.val(ins.ops[1])
+            if op == 'sub' and isinstance(a, Ptr) and isinstance(b, Ptr) and a.root == b.root and a.path and b.path \
+                    and a.path[:-1] == b.path[:-1] and isinstance(a.path[-1], int) and isinstance(b.path[-1], int) \
+                    and (a.es or b.es):
+                R[ins.res] = ((a.path[-1] - b.path[-1]) * (a.es or b.es)) & _mask(w)     # pointer difference in bytes
+                return None
             if isinstance(a, Ptr) or isinstance(b, Ptr):
                 raise Unknown('arithmetic on a pointer')
             a &= _mask(w)
